@@ -287,6 +287,37 @@ class KeptSampleLoop(Spec):
         return [("the loop ends", z3.BoolVal(True))]
 
 
+class HistoryContainers(Spec):
+    """McmcPersonalizeAlgorithm._get_individual_parameters, the statements that create the three histories (before the loop): one
+    container per individual variable plus one for the attachments and one for the regularities, each empty and UNBOUNDED (a list,
+    or a deque without maxlen) -- every draw the loop records is still there when the estimator runs."""
+    target = "leaspy.algo.personalize.mcmc:McmcPersonalizeAlgorithm._get_individual_parameters"
+    fragment = (lambda t: t.startswith("values_history ="), lambda t: t.startswith("regularity_history ="))
+
+    def configs(self):
+        return [dict(vars=v) for v in VARS]
+
+    def setup(self, cx, cfg):
+        from leaspy.algo.personalize.mean_posterior import MeanPosteriorAlgorithm
+        names = sorted(VARS[cfg["vars"]])
+        self_ = SymObj(MeanPosteriorAlgorithm, dict(algo_parameters={"n_iter": cx.int("n_iter"), "n_burn_in_iter": cx.int("n_burn_in_iter")}))
+        import collections
+        return dict(env={"self": self_, "individual_variable_names": list(names), "deque": collections.deque, "collections": collections}, names=names)
+
+    def post(self, cx, st, out):
+        import collections
+        env = out.value
+
+        def unbounded_empty(c):
+            return (type(c) is list or (isinstance(c, collections.deque) and c.maxlen is None)) and len(c) == 0
+        vh = env.get("values_history")
+        ok_v = isinstance(vh, dict) and sorted(vh) == st["names"] and all(unbounded_empty(c) for c in vh.values()) and len({id(c) for c in vh.values()}) == len(vh)
+        return [("one empty unbounded history per individual variable (distinct objects)", z3.BoolVal(bool(ok_v))),
+                ("an empty unbounded history for the attachments and one for the regularities (distinct objects)",
+                 z3.BoolVal(unbounded_empty(env.get("attachment_history")) and unbounded_empty(env.get("regularity_history"))
+                            and env.get("attachment_history") is not env.get("regularity_history")))]
+
+
 # ------------------------------------------------------------------------------------------------------------------
 # scipy_minimize: the affine re-parametrisation and one subject's optimisation
 SM = "leaspy.algo.personalize.scipy_minimize"
@@ -627,7 +658,7 @@ class ScipyAlignment(Spec):
 import random as _random
 from contracts.c03 import m_shuffle  # noqa: F401  (model of random.shuffle)
 
-UNITS = [MeanEstimator(), ModeEstimator(), KeptSampleLoop(), AffineSlices(), Unscaling(), Scaling(), ObjNoJac(), OnePatient(), ScipyAlignment()]
+UNITS = [MeanEstimator(), ModeEstimator(), HistoryContainers(), KeptSampleLoop(), AffineSlices(), Unscaling(), Scaling(), ObjNoJac(), OnePatient(), ScipyAlignment()]
 from contracts.c16 import AddProbe
 CALLEES = [SampleProbe(), TemperatureProbe(), AddProbe()]
 ASSUMPTIONS = ["C17: real arithmetic for tensors (no NaN / rounding): the mean is the exact quotient, argmin returns the first minimal entry",
